@@ -1263,3 +1263,177 @@ Proof.
     destruct (xml_import init_state (kinds st)) eqn:E; [congruence|].
     apply (IH _ false); [|exact Hs]. intros _. simpl. now apply X2.
 Qed.
+
+(* ------------------------------------------------------------------ *)
+(* XML export + import: the kinds are registered again one by one, in order,
+   into a fresh array *)
+
+Definition fresh (k : kind) : kind :=
+  K (k_cpuset k) UNKNOWN (k_forced k) 0 (k_infos k) (0 <? length (k_infos k))%nat.
+
+Lemma add_infos_nodup src : forall dst, NoDup (dst ++ src) -> add_infos dst src = dst ++ src.
+Proof.
+  unfold add_infos. induction src as [|x src IH]; intros dst Hd; simpl; [now rewrite app_nil_r|].
+  assert (Hn : has_info dst x = false).
+  { destruct (has_info dst x) eqn:E; [|reflexivity]. apply has_info_spec in E.
+    apply NoDup_remove_2 in Hd. exfalso. apply Hd. apply in_app_iff. now left. }
+  rewrite Hn. rewrite IH; [now rewrite <- app_assoc|]. now rewrite <- app_assoc.
+Qed.
+
+Lemma compare_different a b :
+  bs_is_empty a = false -> bs_is_empty b = false -> bs_intersects a b = false ->
+  compare_inclusion a b = B_DIFFERENT.
+Proof.
+  intros Ha Hb Hi. rewrite bs_intersects_false in Hi.
+  apply bs_nonempty_mem in Ha. destruct Ha as [p Hp].
+  apply bs_nonempty_mem in Hb. destruct Hb as [q Hq].
+  assert (H1 : bs_subset a b = false) by (apply bs_subset_false; exists p; auto).
+  assert (H2 : bs_subset b a = false).
+  { apply bs_subset_false. exists q. split; [exact Hq|]. destruct (mem q a) eqn:E; [|reflexivity].
+    rewrite (Hi q E) in Hq. discriminate. }
+  assert (H3 : bs_eqb a b = false).
+  { apply bs_eqb_false. intros ->. rewrite bs_subset_refl in H1. discriminate. }
+  assert (H4 : bs_intersects a b = false) by now apply bs_intersects_false.
+  unfold compare_inclusion. now rewrite H3, H1, H2, H4.
+Qed.
+
+Lemma reg_loop_disjoint flags forced infos cs tl : forall olds,
+  bs_is_empty cs = false ->
+  Forall (fun k => bs_is_empty (k_cpuset k) = false /\ bs_intersects cs (k_cpuset k) = false) olds ->
+  reg_loop flags forced infos olds cs tl = LOk olds [] cs tl.
+Proof.
+  induction olds as [|k rest IH]; intros Hc Hf; simpl; [reflexivity|].
+  inversion Hf as [|? ? [H1 H2] Hr]; subst.
+  unfold reg_step. rewrite (compare_different cs (k_cpuset k) Hc H1 H2). rewrite Hc.
+  rewrite (IH Hc Hr). reflexivity.
+Qed.
+
+Lemma xml_import_spec : forall ks acc z st',
+  Forall (fun k => bs_is_empty (k_cpuset k) = false) (acc ++ ks) ->
+  (forall p, (cnt (acc ++ ks) p <= 1)%nat) ->
+  Forall (fun k => NoDup (k_infos k)) ks ->
+  xml_import (St acc (repeat zero_slot z)) ks = inr st' ->
+  kinds st' = acc ++ map fresh ks /\ exists z', tail st' = repeat zero_slot z'.
+Proof.
+  induction ks as [|k ks IH]; intros acc z st' Hne Hpd Hnd H; simpl in H.
+  - injection H as <-. simpl. rewrite app_nil_r. eauto.
+  - apply Forall_app in Hne. destruct Hne as [Hna Hnk]. inversion Hnk as [|? ? Hk Hks]; subst.
+    inversion Hnd as [|? ? Hdk Hdks]; subst.
+    assert (Ei : internal_register (St acc (repeat zero_slot z)) (k_cpuset k) (k_forced k) (Some (k_infos k)) OVERWRITE
+                 = IFatal F_UB \/ exists z', internal_register (St acc (repeat zero_slot z)) (k_cpuset k) (k_forced k) (Some (k_infos k)) OVERWRITE
+                 = IOk (St (acc ++ [fresh k]) (repeat zero_slot z'))).
+    { unfold internal_register. rewrite Hk, (proj2 overwrite_flag_ok). simpl negb. cbv iota.
+      destruct (grow (St acc (repeat zero_slot z))) as [st1|] eqn:Eg; [|now left]. right.
+      destruct (grow_spec _ _ Eg) as [G1 [[z1 G2] G3]]. simpl in G1, G2, G3.
+      rewrite <- repeat_app in G2. rewrite G1, G2.
+      rewrite reg_loop_disjoint; [|exact Hk|].
+      2:{ rewrite Forall_forall in *. intros k2 Hin. split; [auto|].
+          apply bs_intersects_false. intros p Hp. destruct (mem p (k_cpuset k2)) eqn:E; [|reflexivity].
+          specialize (Hpd p). rewrite cnt_app in Hpd. simpl in Hpd. rewrite Hp in Hpd.
+          pose proof (cnt_in acc k2 p Hin E). simpl in Hpd. lia. }
+      rewrite Hk. rewrite G2, repeat_length in G3.
+      destruct (z + z1)%nat as [|n] eqn:En; [lia|]. simpl.
+      exists n. unfold fresh, set_infos. simpl.
+      rewrite (add_infos_nodup (k_infos k) []); [|exact Hdk]. simpl. reflexivity. }
+    destruct Ei as [Ei|[z' Ei]]; rewrite Ei in H; [discriminate|].
+    destruct (IH (acc ++ [fresh k]) z' st') as [I1 I2]; auto.
+    + rewrite <- app_assoc. simpl. apply Forall_app. split; [exact Hna|]. constructor; [exact Hk|exact Hks].
+    + intros p. specialize (Hpd p). rewrite <- app_assoc. rewrite !cnt_app in *. simpl in *. lia.
+    + split; [|exact I2]. rewrite I1, <- app_assoc. reflexivity.
+Qed.
+
+Lemma xml_reload_inv env regs st st' rc :
+  Inv regs st -> xml_reload env st = Fine st' rc -> Inv regs st'.
+Proof.
+  intros [Ik Ip It] H. unfold xml_reload in H.
+  destruct (xml_import init_state (kinds st)) as [f|st1] eqn:E; [discriminate|].
+  injection H as <- _.
+  destruct (xml_import_spec (kinds st) [] 0 st1) as [X1 [z X2]]; auto.
+  - simpl. eapply Forall_impl; [|exact Ik]. intros k Hk. apply (ko_ne _ _ Hk).
+  - intros p. simpl. rewrite Ip. destruct (registered regs p); simpl; lia.
+  - eapply Forall_impl; [|exact Ik]. intros k Hk. apply (ko_nodup _ _ Hk).
+  - simpl in X1. apply rank_state_inv. constructor.
+    + rewrite X1, Forall_map. eapply Forall_impl; [|exact Ik]. intros k Hk.
+      apply (kind_ok_fields regs k); auto. unfold slot_wf, fresh. simpl.
+      destruct (k_infos k); [reflexivity|discriminate].
+    + intros p. rewrite <- Ip, X1. apply cnt_map_cpuset. rewrite map_map. reflexivity.
+    + rewrite X2. apply zero_slots_wf.
+Qed.
+
+(* the reloaded topology reports the same kinds (cpuset, forced efficiency, infos), in
+   the order the ranking gives them *)
+Lemma xml_reload_kinds env regs st st' rc :
+  Inv regs st -> xml_reload env st = Fine st' rc ->
+  kinds st' = rank_kinds env (map fresh (kinds st)).
+Proof.
+  intros [Ik Ip It] H. unfold xml_reload in H.
+  destruct (xml_import init_state (kinds st)) as [f|st1] eqn:E; [discriminate|].
+  injection H as <- _.
+  destruct (xml_import_spec (kinds st) [] 0 st1) as [X1 _]; auto.
+  - simpl. eapply Forall_impl; [|exact Ik]. intros k Hk. apply (ko_ne _ _ Hk).
+  - intros p. simpl. rewrite Ip. destruct (registered regs p); simpl; lia.
+  - eapply Forall_impl; [|exact Ik]. intros k Hk. apply (ko_nodup _ _ Hk).
+  - simpl. now rewrite X1.
+Qed.
+
+Lemma step_inv_all env regs st o st' rc :
+  Inv regs st -> step env st o = Fine st' rc -> Inv (ghost_step regs o) st'.
+Proof.
+  intros HI H. destruct o; try (eapply step_inv; eauto; discriminate).
+  simpl in *. eapply xml_reload_inv; eauto.
+Qed.
+
+Lemma run_inv_all : forall h regs st st' rc,
+  Inv regs st -> run st h = Fine st' rc -> Inv (ghost regs h) st'.
+Proof.
+  induction h as [|[env o] h IH]; intros regs st st' rc HI H; simpl in *.
+  - injection H as <- _. exact HI.
+  - destruct (step env st o) as [st1 rc1|] eqn:Es; [|discriminate].
+    apply (IH _ st1 st' rc); [|exact H]. eapply step_inv_all; eauto.
+Qed.
+
+(* ------------------------------------------------------------------ *)
+(* the undefined shift 1U<<32 needs 2^29 kinds; a history of n operations
+   creates fewer than 2^n kinds *)
+
+Lemma rank_kinds_length env ks : length (rank_kinds env ks) = length ks.
+Proof.
+  pose proof (Permutation_length (rank_kinds_core env ks)) as H. now rewrite !map_length in H.
+Qed.
+
+Lemma step_length env st o st' rc : o <> OpXml ->
+  step env st o = Fine st' rc -> (length (kinds st') <= 2 * length (kinds st) + 1)%nat.
+Proof.
+  intros Hx H. destruct o; simpl in H; try contradiction.
+  - unfold pub_register in H. destruct (negb _); [injection H as <- _; lia|].
+    destruct cs; [|injection H as <- _; lia]. destruct (bs_is_empty b); [injection H as <- _; lia|].
+    destruct (internal_register st b _ infos OVERWRITE) eqn:E; [|injection H as <- _; lia|discriminate].
+    injection H as <- _. simpl. rewrite rank_kinds_length.
+    destruct (internal_register_bounds st b (if forced <? 0 then UNKNOWN else forced) infos OVERWRITE) as [_ [_ B]].
+    specialize (B _ E). lia.
+  - injection H as <- _. unfold restrict_state.
+    destruct (restrict_loop_spec topo (kinds st)) as [_ [_ S3]].
+    destruct (restrict_loop topo (kinds st)) as [live stales]. simpl in S3.
+    destruct stales; simpl; [|rewrite rank_kinds_length]; lia.
+  - injection H as <- _. simpl. rewrite rank_kinds_length. lia.
+  - injection H as <- _. simpl. rewrite map_length. lia.
+Qed.
+
+Lemma run_no_ub : forall h st, no_xml h ->
+  ((length (kinds st) + 1) * 2 ^ length h <= 2 ^ 29)%nat -> run st h <> Fatal F_UB.
+Proof.
+  induction h as [|[env o] h IH]; intros st Hx Hb; simpl; [discriminate|].
+  inversion Hx as [|? ? Ho Hh]; subst. simpl in Ho.
+  destruct (step env st o) as [st1 rc1|f] eqn:Es.
+  - apply IH; [exact Hh|]. pose proof (step_length _ _ _ _ _ Ho Es) as Hl.
+    simpl length in Hb. rewrite Nat.pow_succ_r' in Hb. nia.
+  - intros [= ->]. destruct o; simpl in Es; try discriminate; try contradiction.
+    unfold pub_register in Es. destruct (negb _); [discriminate|]. destruct cs; [|discriminate].
+    destruct (bs_is_empty b); [discriminate|].
+    destruct (internal_register st b _ infos OVERWRITE) eqn:E; try discriminate. injection Es as ->.
+    apply internal_register_bounds in E.
+    assert (2 ^ length h >= 1)%nat by (clear; induction (length h); simpl; lia).
+    simpl length in Hb. rewrite Nat.pow_succ_r' in Hb.
+    assert (N.of_nat (length (kinds st)) < 2 ^ 29)%N; [|lia].
+    change (2 ^ 29)%N with (N.of_nat (2 ^ 29)). apply N2Nat.inj_lt. rewrite !Nat2N.id. nia.
+Qed.
